@@ -47,6 +47,13 @@ def variants():
             for fn, fc in FL:
                 sends = [(1, 0, fc), (1, 1, fc), (1, 0, fc)]
                 out.append(('attach/W%d/%s' % (W, fn), W, 0, 2, 0, sends))
+        # a really full queue (one-page pipes): thread 0 floods its own queue from a callback
+        if W == 1:
+            for fn, fc in FL:
+                out.append(('fullq/W%d/%s' % (W, fn), W, -1, 0, 0, [(10, -1, fc)]))
+        # messages accepted by a busy thread, then tp_shutdown(): they stand in front of the shutdown message
+        if W in (1, 2):
+            out.append(('latesend/W%d' % W, W, -1, 0, 0, [(1, W - 1, '0')]))
         # pool virtual thread as destination
         for faults in (0, 1):
             sends = [(1, W, '0'), (1, W, '0'), (2, W, '0'), (10, W, '0'), (1, 0, '0')]
@@ -63,7 +70,7 @@ def gen_header(path, vs):
                     ', '.join('{ %d, %d, %s }' % s for s in sends)))
         f.write('};\nconst sc_scenario_t sc_scenarios[] = {\n')
         for i, v in enumerate(vs):
-            f.write('\t{ "%s", %s, %d },\n' % (v[0], {'backlog': 'backlog_scenario', 'pvtmix': 'pvtmix_scenario', 'attach': 'attach_scenario'}.get(v[0].split('/')[0], 'msg_scenario'), i))
+            f.write('\t{ "%s", %s, %d },\n' % (v[0], {'backlog': 'backlog_scenario', 'pvtmix': 'pvtmix_scenario', 'attach': 'attach_scenario', 'fullq': 'fullq_scenario', 'latesend': 'latesend_scenario'}.get(v[0].split('/')[0], 'msg_scenario'), i))
         f.write('};\nconst int sc_nscenarios = %d;\n' % len(vs))
 
 
@@ -72,6 +79,12 @@ def plan(tier, vs):
     for v in vs:
         name, W, notrun, mode, faults, sends = v
         kind = name.split('/')[0]
+        if kind == 'fullq':
+            jobs.append((name, 0, 0))       # 140 sends: the default schedule only (the kernel decides where the queue is full)
+            continue
+        if kind == 'latesend':
+            jobs.append((name, 1 if tier == 'quick' else 2, 1 if tier == 'quick' else 2))
+            continue
         if tier == 'quick':
             if kind in ('backlog', 'pvtmix', 'attach'):
                 jobs.append((name, 2, 1))
